@@ -1,5 +1,6 @@
-(* C07_Chan_Proofs.v — reachability relation of the RingChannel protocol model and of the batch queue model, and
-   the property STATEMENTS that are not proved in Coq (see notes/C07.md "Partial"); E3 replay steps are steps. *)
+(* C07_Chan_Proofs.v — reachability relations of the RingChannel protocol model (creach) and of the batch queue model
+   (breach), the channel property statement (proved in C07_Chan_Inv.v / C07_Chan_InvS.v as chan_no_lost_wakeup_full);
+   E3 replay steps are steps. *)
 From Coq Require Import ZArith List Bool Arith.
 From PV Require Import Base.U64 E3.E3_Run C07.C07_Model C07.C07_Chan_Model C07.C07_Batch_Model.
 Import ListNotations.
@@ -17,7 +18,7 @@ Proof.
   destruct (Nat.ltb _ _); exact R'.
 Qed.
 
-(* NOT PROVED: no reachable state of the channel protocol is a lost wake-up, for consumers or for senders *)
+(* the statement; proved (for 0 <= cap and fewer than 2^64 - 1 participants) as C07_Chan_InvS.chan_no_lost_wakeup_full *)
 Definition chan_no_lost_wakeup_statement : Prop :=
   forall cap Y scripts st, 2 <= cap -> 0 <= Y -> creach cap Y (chan_init scripts) st ->
   lost_wakeup_recv (length scripts) st = false /\ lost_wakeup_send cap (length scripts) st = false.
@@ -26,7 +27,7 @@ Inductive breach (c : cfg) (st0 : bstate) : bstate -> Prop :=
 | breach0 : breach c st0 st0
 | breachS st p : breach c st0 st -> breach c st0 (fst (batch_step c st p)).
 
-(* NOT PROVED: the frontier ordering of the batch queue and the integrity of published, unread elements *)
+(* an early formulation of the batch queue invariant, superseded by the theorems of C07_Batch_Proofs.v (BInv) *)
 Definition batch_q_statement : Prop :=
   forall c s scripts st, 2 <= c_cap c -> breach c (batch_init s scripts) st ->
   let gh := b_grt st - wrap (b_rtail st - b_head st) in
